@@ -64,6 +64,8 @@ def lint_function(fi, mod, program):
                 if ci.node.name == nm:
                     base = ci
         owner = base
+    # configuration dictionaries are read-only inputs: a function that writes into one leaves state behind for later calls
+    config_params = {p for p in params if p in ('bit_config', 'iso_config', 'param_config', 'config', 'field_config')}
     bad = []
     for n in ast.walk(fi.node):
         if isinstance(n, (ast.Global, ast.Nonlocal)):
@@ -99,6 +101,8 @@ def lint_function(fi, mod, program):
                     bad.append('mutation of module-level container %s at line %d' % (rid, n.lineno))
                 elif rid == 'self' and attr_after_root in shared_attrs:
                     bad.append('mutation through self of the class-level container %s at line %d' % (attr_after_root, n.lineno))
+                elif rid in config_params and rid not in locals_assigned:
+                    bad.append('store into the caller-owned configuration argument %s at line %d' % (rid, n.lineno))
     for d in fi.node.args.defaults + [d for d in fi.node.args.kw_defaults if d is not None]:
         if is_mutable_literal(d):
             bad.append('stateful default argument (evaluated once, shared by all calls) at line %d' % d.lineno)
